@@ -229,7 +229,7 @@ func crCases(c *core.Ctx) ([]json.RawMessage, error) {
 			return nil, err
 		}
 		rng.Shuffle(len(ps), func(i, j int) { ps[i], ps[j] = ps[j], ps[i] })
-		lays := []model.Layout{{NL: "\n"}, {NL: "\r\n", Multi: 2, Quote: true, Comments: 2}, {NL: "\r", Multi: 1, Pad: 1, Comments: 1}}
+		lays := []model.Layout{{NL: "\n"}, {NL: "\r\n", Multi: 2, Quote: 3, Comments: 2}, {NL: "\r", Multi: 1, Pad: 1, Comments: 1}}
 		repl := []byte("{}[]:,\"\\/@|#*-0 \n\x00\xc3")
 		np := c.Pick(40, 400)
 		for i := 0; i < np && i < len(ps); i++ {
